@@ -251,23 +251,26 @@ class StepBudget:
         return n
 
     def _line(self, code, line):
-        if self.armed:
-            self.count += 1
-            if self.count > self.budget:
-                self.armed = False
-                raise StepBudgetExceeded('more than %d library lines in one call' % self.budget)
+        # counts library lines since the last reset (entry of an outermost call, entry of a quiet oracle section,
+        # start of a case); armed all the time so that a hang anywhere - also inside a probe - ends the case
+        self.count += 1
+        if self.count > self.budget:
+            self.count = 0
+            raise StepBudgetExceeded('more than %d library lines in one call' % self.budget)
 
     def start(self):
         self.count = 0
-        self.armed = True
 
     def stop(self):
-        self.armed = False
-        return self.count
+        n = self.count
+        self.count = 0
+        return n
 
 
 class Monitor:
-    def __init__(self, ctx, contracts=(), step_budget=None):
+    def __init__(self, ctx, contracts=(), step_budget=None, budget_judged=True):
+        self.budget_judged = budget_judged
+        self.heartbeat = None       # set by run_cases: re-arms the wall-clock alarm whenever an outermost call returns
         self.ctx = ctx
         self.L = ctx.L
         self.depth = 0
@@ -352,6 +355,11 @@ class Monitor:
                             ctx.max_steps_call = key
                 if isinstance(exc, (KeyboardInterrupt, SystemExit)):
                     raise exc
+                if isinstance(exc, StepBudgetExceeded) and not mon.budget_judged:
+                    # safety net only: this check does not judge termination (C09/C10 do)
+                    ctx.aborted['call-ran-into-safety-step-budget'] += 1
+                    ctx.extra['n_budget_violations'] = ctx.extra.get('n_budget_violations', 0) + 1
+                    raise exc
                 for c, st in states:
                     try:
                         c.post(call, st, result, exc)
@@ -364,6 +372,8 @@ class Monitor:
                         ctx.oracle_error('%s.post %s' % (type(c).__name__, key))
             finally:
                 mon.depth -= 1
+                if mon.heartbeat is not None:
+                    mon.heartbeat()
             if exc is not None:
                 raise exc
             return result
@@ -385,6 +395,10 @@ class _Quiet:
 
     def __enter__(self):
         self.mon.depth += 1
+        if self.mon.budget is not None:
+            self.mon.budget.start()
+        if self.mon.heartbeat is not None:
+            self.mon.heartbeat()
 
     def __exit__(self, *a):
         self.mon.depth -= 1
